@@ -17,6 +17,7 @@ RULE = ("Hypothesis draws histories (<=30 calls) over 4 pids (two of them a suff
         "another pid still shares its object, or an invalid-verdict call hits a referenced object; "
         "distinct key = sequence of (op, pid, content, outcome) restricted to the sharing events.")
 ASSUMPTIONS = ["single thread", "process-local: crashes and faults are C10/C13"]
+SHRINK_BUDGET = 30.0
 PIDS = ["doi:10.1/x", "10.1/x", "doi:10.1/x.2", "other"]
 FORMATS = [None, "f"]
 
